@@ -78,21 +78,21 @@ task order -/
 theorem mpi_map_correct (f : τ → ρ) (size : Nat) (hsize : 1 ≤ size) (lb : Bool) (tasks : List τ)
     (c : MCfg τ ρ) (hr : Reachable f size lb tasks c) (hd : c.phase = .done) :
     c.results = tasks.map (fun t => some (f t)) := by
-  exact (Inv.of_reachable hsize hr).map_correct hd
+  exact (MpiInv.of_reachable hsize hr).map_correct hd
 
 /-- no reachable configuration in which the master still waits is stuck: some action is enabled
 (so under any fair scheduler `map` returns) -/
 theorem mpi_no_stuck (f : τ → ρ) (size : Nat) (hsize : 1 ≤ size) (lb : Bool) (tasks : List τ)
     (c : MCfg τ ρ) (hr : Reachable f size lb tasks c) (hd : c.phase ≠ .done) :
     ∃ a c', mpiStep f size tasks c a = some c' := by
-  exact (Inv.of_reachable hsize hr).no_stuck hsize hd
+  exact (MpiInv.of_reachable hsize hr).no_stuck hsize hd
 
 /-- a worker never has to run a task before it received the function (the `_error_function` branch is
 unreachable) -/
 theorem mpi_function_before_tasks (f : τ → ρ) (size : Nat) (hsize : 1 ≤ size) (lb : Bool) (tasks : List τ)
     (c : MCfg τ ρ) (hr : Reachable f size lb tasks c) (w : Nat) (tag : Nat) (t : τ) (rest : List (ToWorker τ))
     (h : c.inbox[w]? = some (.task tag t :: rest)) : c.hasFn.getD w false = true := by
-  exact (Inv.of_reachable hsize hr).function_before_tasks w tag t rest h
+  exact (MpiInv.of_reachable hsize hr).function_before_tasks w tag t rest h
 
 /-! ### experiment filing -/
 
